@@ -251,6 +251,14 @@ class Sequences(SubCheck):
                                 out.fail("Subpath.d raised %s" % type(e).__name__, None, repr(e), kind="exception", d=d,
                                          sub=si)
                                 continue
+                            if frag and sm is False and r is False and segs[0].start is not None:
+                                # given its current point back, the fragment's absolute text must be exactly right; only the missing
+                                # move is the known finding (KF-C07-2), anything else is reported as its own violation
+                                pre = "M%r,%r " % (float(segs[0].start.x), float(segs[0].start.y))
+                                src2 = [svg.Move(end=svg.Point(segs[0].start))] + list(segs)
+                                check_roundtrip(svg, out, src2, pre + text, "subpath %d of %r .d(relative=%r, smooth=%r) "
+                                                "after its current point" % (si, d, r, sm),
+                                                dict(build="subpath-prefixed", relative=r, smooth=sm, d=d, sub=si, fragment=False))
                             check_roundtrip(svg, out, segs, text, "subpath %d of %r .d(relative=%r, smooth=%r)" % (si, d, r, sm),
                                             dict(build="subpath", relative=r, smooth=sm, d=d, sub=si, fragment=frag),
                                             fragment=frag)
